@@ -4,8 +4,7 @@ Model of `sozu_lib::router::Router` (lib/src/router/mod.rs): `pre` / `post`
 rule lists, the host trie of `(PathRule, MethodRule, Route)` leaves,
 `add_http_front` / `remove_http_front`, `add_tree_rule` / `remove_tree_rule`,
 and `lookup` with its path/method selection loop — transcribed as the code is
-(including `PathRule::eq` without an `Equals` arm, the early `return` of the
-selection loop and its `size >= prefix_length` test).
+(rank-based selection loop: first candidate of maximal rank).
 
 Parameters (not modelled): the `regex` crate (`Oracle`: truth value of each
 regex on the subject at hand, and whether a pattern compiles), `idna`
@@ -42,10 +41,13 @@ def PathRule.matches (o : Oracle) (r : PathRule) (path : Bytes) : PathRes :=
   | .regex s => if o.path s path then .regex else .none
   | .equals s => if path = s then .equals else .none
 
-/-- `impl PartialEq for PathRule` **as implemented**: there is no `Equals` arm. -/
+/-- `impl PartialEq for PathRule`: same variant and same string (regexes are
+    compared by source) — since fix b632e1a the `Equals` arm exists, so this is
+    plain equality of the model values. -/
 def PathRule.eqImpl : PathRule → PathRule → Bool
   | .pfx a, .pfx b => a == b
   | .regex a, .regex b => a == b
+  | .equals a, .equals b => a == b
   | _, _ => false
 
 abbrev MethodRule := Option Bytes
@@ -286,39 +288,38 @@ def scanList (o : Oracle) (l : List Rule4) (host path method : Bytes) : Option R
   | some r => some r.2.2.2
   | none => none
 
-/-- state of the selection loop of `lookup`: returned early, or still scanning
-    with `(prefix_length, matched)` -/
-inductive Sel where
-  | ret (r : Route)
-  | cont (plen : Nat) (m : Option Route)
+/-- rank of a leaf rule for a request, as computed inside the selection loop
+    of `lookup` (`None` = one of the two `continue`s):
+    `(EQUALS 2 / REGEX 1 / PREFIX 0, prefix length, method-specific 1 / agnostic 0)` -/
+def ruleRank (o : Oracle) (path method : Bytes) (rule : Rule3) : Option (Nat × Nat × Nat) :=
+  match methodMatches rule.2.1 method with
+  | .none => none
+  | mr =>
+    let k := if mr = .equals then 1 else 0
+    match rule.1.matches o path with
+    | .equals => some (2, 0, k)
+    | .regex => some (1, 0, k)
+    | .pfx size => some (0, size, k)
+    | .none => none
+
+/-- `rank > best_rank` on `(u8, usize, u8)` tuples (lexicographic) -/
+def rankGt (a b : Nat × Nat × Nat) : Bool :=
+  a.1 > b.1 || (a.1 == b.1 && (a.2.1 > b.2.1 || (a.2.1 == b.2.1 && a.2.2 > b.2.2)))
+
+/-- state of the selection loop: `(best_rank, matched)` -/
+structure Sel where
+  best : Nat × Nat × Nat
+  m : Option Route
 deriving DecidableEq, Repr
 
 def selStep (o : Oracle) (path method : Bytes) (s : Sel) (rule : Rule3) : Sel :=
-  match s with
-  | .ret r => .ret r
-  | .cont plen m =>
-    match rule.1.matches o path with
-    | .regex | .equals =>
-      (match methodMatches rule.2.1 method with
-       | .equals => .ret rule.2.2
-       | .all => .cont path.length (some rule.2.2)
-       | .none => .cont plen m)
-    | .pfx size =>
-      if size ≥ plen then
-        (match methodMatches rule.2.1 method with
-         | .equals => .cont size (some rule.2.2)
-         | .all => .cont size (some rule.2.2)
-         | .none => .cont plen m)
-      else .cont plen m
-    | .none => .cont plen m
+  match ruleRank o path method rule with
+  | none => s
+  | some rank => if s.m.isNone || rankGt rank s.best then ⟨rank, some rule.2.2⟩ else s
 
-def Sel.out : Sel → Option Route
-  | .ret r => some r
-  | .cont _ m => m
-
-/-- the selection loop over one leaf -/
+/-- the selection loop over one leaf (rank-based since fix 3989b45) -/
 def selectLeaf (o : Oracle) (rules : List Rule3) (path method : Bytes) : Option Route :=
-  (rules.foldl (selStep o path method) (.cont 0 none)).out
+  (rules.foldl (selStep o path method) ⟨(0, 0, 0), none⟩).m
 
 /-- the tree part of `lookup` -/
 def lookupTree (o : Oracle) (t : Node (List Rule3)) (host path method : Bytes) : Option Route :=
